@@ -901,6 +901,62 @@ MUTANTS = [
       (RT, """                    if rtype not in _CLEANUP_FUNCS:
                         raise ValueError(""", """                    if rtype not in _CLEANUP_FUNCS and cmd != "REGISTER":
                         raise ValueError(""")),
+    # -------------------------------------------------------------- R-RT-SWEEP
+    # D10 (fixed in /repo): the report of a failing cleanup raises under -W error and aborts the sweep
+    M("rt-sweep-report-unguarded-D10", ["C11", "C13"], ["R-RT-SWEEP"],
+      (RT, """                    try:
+                        warnings.warn(f"resource_tracker: {name}: {e!r}")
+                    except Exception:
+                        pass
+""", """                    warnings.warn(f"resource_tracker: {name}: {e!r}")
+""")),
+    M("rt-sweep-leak-warning-narrow-handler", ["C11", "C13"], ["R-RT-SWEEP"],
+      (RT, """                        "clean up at shutdown"
+                    )
+                except Exception:
+                    pass""", """                        "clean up at shutdown"
+                    )
+                except OSError:
+                    pass""")),
+    M("rt-sweep-cleanup-narrow-handler", ["C11", "C13"], ["R-RT-SWEEP"],
+      (RT, """                        util.debug(f"[ResourceTracker] unlink {name}")
+                except Exception as e:""", """                        util.debug(f"[ResourceTracker] unlink {name}")
+                except OSError as e:""")),
+    M("rt-sweep-debug-before-loop", ["C11", "C13"], ["R-RT-SWEEP"],
+      (RT, """        for rtype, rtype_registry in registry.items():
+            if rtype == "folder":
+                continue""", """        warnings.warn("resource_tracker: end of life")
+        for rtype, rtype_registry in registry.items():
+            if rtype == "folder":
+                continue""")),
+    # ------------------------------------------- R-TRACKER-SHIP (install before user code)
+    M("ship-main-fixup-before-tracker-install", ["C12"], ["R-TRACKER-SHIP"],
+      (SP, """    if "mp_tracker_args" in data:
+        from multiprocessing.resource_tracker import (""", """    if "init_main_from_name" in data:
+        _fixup_main_from_name(data["init_main_from_name"])
+    if "mp_tracker_args" in data:
+        from multiprocessing.resource_tracker import (""")),
+    M("ship-child-unpickles-before-prepare", ["C12"], ["R-TRACKER-SHIP"],
+      (PP, """                prep_data = pickle.load(from_parent)
+                spawn.prepare(prep_data)
+                process_obj = pickle.load(from_parent)""", """                prep_data = pickle.load(from_parent)
+                process_obj = pickle.load(from_parent)
+                spawn.prepare(prep_data)""")),
+    # ------------------------------------------------- R-KILL-PATH (flag writer)
+    M("kill-flag-sticky-first-mode", ["C06"], ["R-KILL-PATH"],
+      (PE, """        with self.shutdown_lock:
+            self.shutdown = True
+            if kill_workers is not None:""", """        with self.shutdown_lock:
+            if self.shutdown:
+                return
+            self.shutdown = True
+            if kill_workers is not None:""")),
+    M("kill-flag-only-when-not-shutdown", ["C06"], ["R-KILL-PATH"],
+      (PE, """            self.shutdown = True
+            if kill_workers is not None:
+                self.kill_workers = kill_workers""", """            if kill_workers is not None and not self.shutdown:
+                self.kill_workers = kill_workers
+            self.shutdown = True""")),
     # --------------------------------------------------------------- R-RT-LOOP
     M("rt-barrier-except-exception", ["C11", "C12"], ["R-RT-LOOP"],
       (RT, """                except BaseException:
@@ -1810,6 +1866,14 @@ BENIGN = [
             return
         if True:
             self._executor_manager_thread = None""")),
+    B("benign-sweep-handlers-baseexception", ["C11", "C13"],
+      (RT, """                        "clean up at shutdown"
+                    )
+                except Exception:
+                    pass""", """                        "clean up at shutdown"
+                    )
+                except BaseException:
+                    pass""")),
     B("benign-increment-spelled-out", None,
       (PE, """                    n_sentinels_sent += 1""", """                    n_sentinels_sent = n_sentinels_sent + 1"""),
       (PE, """            self._queue_count += 1""", """            self._queue_count = self._queue_count + 1"""),
